@@ -211,13 +211,20 @@ func VerifC15Sched() {
 	})
 	ctx := context.Background()
 	genesis := vrt.TimeAt(0)
+	var resolved [vMaxSlot]bool
 	for sl := 0; sl < vMaxSlot; sl++ {
 		if (mask>>sl)&1 == 0 {
 			continue
 		}
 		cur = sl
 		slot := core.Slot{Slot: uint64(sl), Time: genesis.Add(time.Duration(sl) * vSlotDur), SlotDuration: vSlotDur, SlotsPerEpoch: vSlotsPerEpoch}
+		// "a slot that begins after that epoch's duties were resolved": the scheduler's own record says the slot's epoch
+		// is resolved when the slot begins, or (no pre-resolution of the next epoch in between) right after its call
+		resolved[sl] = s.getResolvedEpoch() == slot.Epoch()
 		s.scheduleSlot(ctx, slot)
+		if !slot.LastInEpoch() && s.getResolvedEpoch() == slot.Epoch() {
+			resolved[sl] = true
+		}
 		if !vrt.Symbolic() {
 			time.Sleep(40 * time.Millisecond) // native replay: duties are triggered in goroutines
 		}
@@ -281,26 +288,26 @@ func VerifC15Sched() {
 			noFail = false
 		}
 	}
-	if noFail {
+	{
 		for sl := 0; sl < vMaxSlot; sl++ {
-			if (mask>>sl)&1 == 0 {
+			if (mask>>sl)&1 == 0 || !(noFail || resolved[sl]) {
 				continue
 			}
 			ep := uint64(sl) / vSlotsPerEpoch
 			if p := bn.pro[sl]; p == 1 || p == 2 {
 				if bn.active[p-1] || bn.actEp[p-1] == ep {
-					vrt.Assert("with no failing call every assigned proposer duty of a scheduled slot is triggered", cnt[sl][core.DutyProposer] == 1)
+					vrt.Assert("every assigned proposer duty of a scheduled slot whose epoch is resolved (or with no failing call at all) is triggered", cnt[sl][core.DutyProposer] == 1)
 					vrt.Reach("proposer duty expected")
 				}
 			}
 			if a := bn.att[sl]; a == 1 || a == 2 {
 				if bn.active[a-1] || bn.actEp[a-1] == ep {
-					vrt.Assert("with no failing call every assigned attester duty of a scheduled slot is triggered", cnt[sl][core.DutyAttester] == 1)
+					vrt.Assert("every assigned attester duty of a scheduled slot whose epoch is resolved (or with no failing call at all) is triggered", cnt[sl][core.DutyAttester] == 1)
 				}
 			}
 			if y := bn.sync[ep]; y == 1 || y == 2 {
 				if bn.active[y-1] || bn.actEp[y-1] == ep {
-					vrt.Assert("with no failing call every sync contribution duty of a scheduled slot is triggered", cnt[sl][core.DutySyncContribution] == 1)
+					vrt.Assert("every sync contribution duty of a scheduled slot whose epoch is resolved (or with no failing call at all) is triggered", cnt[sl][core.DutySyncContribution] == 1)
 				}
 			}
 		}
